@@ -2,6 +2,7 @@
 from __future__ import annotations
 
 import ast
+import os
 import subprocess
 import sys
 from pathlib import Path
@@ -24,7 +25,14 @@ class Driver:
     def ask_many(self, lines):
         for ln in lines:
             assert "\n" not in ln
-        pr = subprocess.run([str(DRIVER)], input="".join(ln + "\n" for ln in lines), capture_output=True, text=True, timeout=1800)
+        # normal throughput is thousands of requests per second; a model that takes minutes (e.g. a regenerated regular
+        # expression with exponential back-tracking) is reported as "driver-timeout" for every request of the batch: the
+        # comparators then report the correspondence as broken, they never wait it out
+        budget = max(90.0, 0.05 * len(lines)) * (1 if os.environ.get("VERIF_TIER", "quick") == "quick" else 4)
+        try:
+            pr = subprocess.run([str(DRIVER)], input="".join(ln + "\n" for ln in lines), capture_output=True, text=True, timeout=budget)
+        except subprocess.TimeoutExpired:
+            return ["driver-timeout"] * len(lines)
         if pr.returncode != 0:
             raise RuntimeError(f"driver failed: {pr.stderr[-300:]}")
         out = pr.stdout.split("\n")
@@ -494,7 +502,7 @@ def _pipeline_case(src, mode="exec"):
     if "!" in src.replace("!=", ""):
         return None
     if any(0xD800 <= ord(c) <= 0xDFFF for c in src):
-        return None  # a lone surrogate: what happens is the codec's doing (KF-C03-lone-surrogate), not in the model
+        return None  # a lone surrogate: what happens is the codec's doing (a SyntaxError built from UnicodeEncodeError), not in the model
     from harness import impl
 
     o = impl.parse(src, mode)
@@ -540,7 +548,7 @@ def run_pipeline_correspondence(rep, cases, name="pipeline (text -> outcome)"):
                 ok = k == "tokerr" and (obs.get("msg") or "").split(":")[0] in ans
         else:
             ok = False
-        if "assumed=true" in ans and k == "err" and head == "tree":
+        if "assumed=true" in ans and k == "err" and head in ("tree", "invalid"):
             ok = None  # a helper (literal evaluation, version gate) raised: outside the recogniser's knowledge
             stats["skipped"] = stats.get("skipped", 0) + 1
             continue
